@@ -39,13 +39,15 @@ type eth struct{}
 
 // PubKeyToAddr public key to address
 func (e *eth) PubKeyToAddr(pubKey []byte) string {
+	// the cache holds the raw address: its letter case depends on the fork state at the current height and
+	// must be decided on every call, not frozen at the first conversion of this key
 	pubStr := string(pubKey)
 	if value, ok := addrCache.Get(pubStr); ok {
-		return value.(string)
+		return formatAddr(value.(string))
 	}
 	addr := pubKey2EthAddr(pubKey)
 	addrCache.Add(pubStr, addr)
-	return addr
+	return formatAddr(addr)
 }
 
 // ValidateAddr address validation
@@ -93,10 +95,10 @@ func pubKey2EthAddr(pubKey []byte) string {
 	pub, err := crypto.DecompressPubkey(pubKey)
 	// ecdsa public key, compatible with ethereum, get address from eth api
 	if err == nil {
-		return formatAddr(crypto.PubkeyToAddress(*pub).String())
+		return crypto.PubkeyToAddress(*pub).String()
 	}
 	// just format as eth address if pubkey not compatible
 	var a common.Address
 	a.SetBytes(crypto.Keccak256(pubKey[1:])[12:])
-	return formatAddr(a.String())
+	return a.String()
 }
